@@ -185,7 +185,7 @@ func (g *graphGen) block() {
 		}
 		return
 	}
-	switch n := g.r.Intn(25); n {
+	switch n := g.r.Intn(27); n {
 	case 0:
 		g.bind("list", fmt.Sprintf("[%s, %s, %s]", g.scalar(), g.ref(), g.scalar()))
 	case 1:
@@ -266,6 +266,27 @@ func (g *graphGen) block() {
 			}
 		} else {
 			g.bind("list", g.leaf2("list"))
+		}
+	case 25, 26: // top-level control flow that leaves a declared global unassigned
+		if g.o.D.TopLevelControl {
+			n := g.fresh("never")
+			switch g.r.Intn(4) {
+			case 0:
+				g.unit("if len([]) > 0:\n    %s = [1]\n", n)
+			case 1:
+				g.unit("for %s in []:\n    pass\n", n)
+			case 2:
+				if g.o.D.While {
+					g.unit("while len([]) > 0:\n    %s = {}\n", n)
+				} else {
+					g.unit("if not True:\n    %s = {}\n", n)
+				}
+			default:
+				g.unit("if True:\n    pass\nelse:\n    %s = [2]\n", n)
+			}
+			g.bind("list", g.leaf2("list"))
+		} else {
+			g.bind("dict", g.leaf2("dict"))
 		}
 	case 23, 24: // a closure frozen by the host while the call that created it is still running
 		f, mk := g.fresh("early"), g.fresh("mk")
